@@ -46,6 +46,7 @@ int sim_fputc(int c, FILE* f) { if (!g_cap.active || (f != stdout && f != stderr
 void sim_exit(int code) {
   if (g_cap.on_exit) g_cap.on_exit(code);
   fflush(stdout); fflush(stderr);
+  SIM_GCOV_DUMP();
   _exit(code);
 }
 
